@@ -39,22 +39,29 @@ def callee_name(c: ast.Call) -> Optional[str]:
 class Facts:
     """Facts (branch/assert conditions) holding at an expression, with alias-robust subject terms."""
 
-    def __init__(self, fa: FuncAnalysis, at_expr: ast.AST, expand: bool = True):
+    def __init__(self, fa: FuncAnalysis, at_expr: ast.AST, expand: bool = True, _depth: int = 2, binding: Optional[Dict[Term, Term]] = None):
         self.fa = fa
         self.at = at_expr
+        self.binding = binding or None
         raw = fa.cfg.expr_facts(at_expr)
         atoms: List[Tuple[ast.AST, bool]] = []
         for a, pol in raw:
             atoms.append(norm_atom(a, pol))
         if expand:
             atoms = expand_atoms(fa, atoms)
+            atoms = atoms + caller_context_atoms(fa, _depth)
         self.atoms = atoms
 
     def _term(self, e: ast.AST) -> Term:
         try:
-            return strip_sites(self.fa.term_of(e))
+            t = strip_sites(self.fa.term_of(e))
         except AnalysisError:
             return ("top", "no node")
+        if self.binding:
+            from .terms import subst
+
+            t = subst(t, self.binding)
+        return t
 
     def isinstance_of(self, subject: Term, classes: Set[str]) -> bool:
         """isinstance(subject, C) / type(subject) is C holds for some C in classes (dotted, e.g. 'ast.Constant')."""
@@ -276,6 +283,133 @@ def expand_atoms(fa: FuncAnalysis, atoms: List[Tuple[ast.AST, bool]], depth: int
             nxt += new
         work = nxt
         depth -= 1
+    return out
+
+
+def call_sites_of(model: Model, fi: FuncInfo) -> List[Tuple[FuncInfo, ast.Call, int]]:
+    """(caller, call node, number of leading formals bound implicitly) for every resolved call of fi in the package."""
+    idx = model.__dict__.get("_call_site_index")
+    if idx is None:
+        idx = {}
+        for f in model.funcs.values():
+            for c in calls_in(f):
+                g = None
+                skip = 0
+                fn = c.func
+                if isinstance(fn, ast.Name):
+                    tgt = model.lookup_target(model.resolve_dotted(f.module, f, fn.id))
+                    g = tgt if isinstance(tgt, FuncInfo) else None
+                elif isinstance(fn, ast.Attribute) and isinstance(fn.value, ast.Name) and f.cls is not None and f.pos_params and fn.value.id == f.pos_params[0]:
+                    g = model.find_method(f.cls, fn.attr)
+                    skip = 0 if (g is not None and "staticmethod" in g.decorators) else 1
+                if g is not None:
+                    idx.setdefault(g.qual, []).append((f, c, skip))
+        model.__dict__["_call_site_index"] = idx
+    return idx.get(fi.qual, [])
+
+
+def caller_context_atoms(fa: FuncAnalysis, depth: int = 2) -> List[Tuple[ast.AST, bool]]:
+    """For a private helper: the facts that hold at *every* one of its call sites, translated into the
+    helper's own vocabulary (sub-expressions equal to an actual argument are replaced by the formal's name).
+    This makes "the guard is in the caller, the work in an extracted helper" equivalent to the inline form."""
+    fi = fa.fi
+    if depth <= 0 or isinstance(fi.node, ast.Lambda):
+        return []
+    private = fi.name.startswith("_") and not fi.name.startswith("__") or fi.parent_func is not None
+    if not private or fi.name.startswith(("visit_", "call_")) or fi.name in ("generic_visit", "visit"):
+        return []
+    sites = call_sites_of(fa.model, fi)
+    if not sites or len(sites) > 4:
+        return []
+    common: Optional[Dict[str, Tuple[ast.AST, bool]]] = None
+    anchor = next((st for st in fi.node.body if fa.cfg.has_node(st)), None)
+    if anchor is None:
+        return []
+    for caller, call, skip in sites:
+        if caller is fi:
+            continue
+        try:
+            cfa = fa.ctx.analysis(caller)
+            if not cfa.cfg.has_node(call):
+                return []
+            cf = Facts(cfa, call, True, depth - 1)
+        except AnalysisError:
+            return []
+        formals = fi.pos_params[skip:]
+        actual_terms = []
+        for p_, a in zip(formals, call.args):
+            actual_terms.append((p_, strip_sites(cfa.term_of(a))))
+        for k in call.keywords:
+            if k.arg:
+                actual_terms.append((k.arg, strip_sites(cfa.term_of(k.value))))
+        if skip and caller.pos_params:
+            actual_terms.append((fi.pos_params[0], ("param", caller.pos_params[0])))
+        mine: Dict[str, Tuple[ast.AST, bool]] = {}
+        for a, pol in cf.atoms:
+            tr = _translate(cfa, a, actual_terms, set(fi.params))
+            if tr is None:
+                continue
+            _attach(tr, anchor)
+            tr._parent = anchor  # type: ignore  # evaluated at the helper's first statement: names are its formals
+            mine[("+" if pol else "-") + ast.dump(tr)] = (tr, pol)
+        common = mine if common is None else {k: v for k, v in common.items() if k in mine}
+    return list((common or {}).values())
+
+
+def _translate(cfa: FuncAnalysis, a: ast.AST, actual_terms, formals: Set[str]) -> Optional[ast.AST]:
+    """copy of atom a with every sub-expression whose term equals an actual argument replaced by the formal name;
+    None if some caller-local name remains."""
+    import builtins as _b
+
+    def go(n):
+        if isinstance(n, ast.expr) and not isinstance(n, ast.Constant):
+            try:
+                t = strip_sites(cfa.term_of(n)) if cfa.cfg.has_node(n) else None
+            except AnalysisError:
+                t = None
+            if t is not None:
+                for formal, at in actual_terms:
+                    if t == at:
+                        return ast.Name(id=formal, ctx=ast.Load())
+        if isinstance(n, ast.AST):
+            new = n.__class__()
+            for f in n._fields:
+                if hasattr(n, f):
+                    v = getattr(n, f)
+                    setattr(new, f, [go(x) for x in v] if isinstance(v, list) else go(v))
+            for att in ("lineno", "col_offset"):
+                if hasattr(n, att):
+                    setattr(new, att, getattr(n, att))
+            return new
+        return n
+
+    out = go(a)
+    caller_locals = _locals_of(cfa.fi)
+    for x in ast.walk(out):
+        if isinstance(x, ast.Name) and x.id not in formals and x.id in caller_locals:
+            return None
+    return out
+
+
+def _locals_of(fi: FuncInfo) -> Set[str]:
+    """names bound in fi or in a function enclosing it (they mean something else inside a helper)"""
+    cache = fi.__dict__.setdefault("_locals_cache", None) if hasattr(fi, "__dict__") else None
+    if cache is not None:
+        return cache
+    out: Set[str] = set()
+    f: Optional[FuncInfo] = fi
+    while f is not None:
+        out |= set(f.params)
+        for n in own_nodes(f):
+            if isinstance(n, ast.Name) and isinstance(n.ctx, (ast.Store, ast.Del)):
+                out.add(n.id)
+            elif isinstance(n, (ast.FunctionDef, ast.AsyncFunctionDef, ast.ClassDef)) and n is not f.node:
+                out.add(n.name)
+            elif isinstance(n, (ast.Import, ast.ImportFrom)):
+                out |= {(al.asname or al.name).split(".")[0] for al in n.names}
+        f = f.parent_func
+    if hasattr(fi, "__dict__"):
+        fi.__dict__["_locals_cache"] = out
     return out
 
 
@@ -507,10 +641,15 @@ def used_visitor(model: Model, ctx: TermCtx, fi: FuncInfo, want_transformer: Opt
 
 
 class Event:
-    __slots__ = ("name", "args", "kwargs", "site", "must", "via", "call", "owner")
+    __slots__ = ("name", "args", "kwargs", "site", "must", "via", "call", "owner", "recv", "binding")
 
-    def __init__(self, name, args, kwargs, site, must, via, call, owner):
-        self.name, self.args, self.kwargs, self.site, self.must, self.via, self.call, self.owner = name, args, kwargs, site, must, via, call, owner
+    def __init__(self, name, args, kwargs, site, must, via, call, owner, recv=None, binding=None):
+        self.name, self.args, self.kwargs, self.site, self.must, self.via, self.call, self.owner, self.recv = name, args, kwargs, site, must, via, call, owner, recv
+        self.binding = binding or {}
+
+    def facts(self, ctx) -> "Facts":
+        """facts at the call, with subjects expressed in the vocabulary of the function the events were collected for"""
+        return Facts(ctx.analysis(self.owner), self.call, binding=self.binding)
 
 
 def call_events(ctx: TermCtx, fi: FuncInfo, pred: Callable[[str], bool], depth: int = 2, _stack=()) -> List[Event]:
@@ -533,7 +672,13 @@ def call_events(ctx: TermCtx, fi: FuncInfo, pred: Callable[[str], bool], depth: 
         if nm is not None and pred(nm):
             args = tuple(strip_sites(fa.term_of(a)) for a in c.args)
             kws = tuple((k.arg, strip_sites(fa.term_of(k.value))) for k in c.keywords)
-            out.append(Event(nm, args, kws, node, True, (), c, fi))
+            recv = None
+            if isinstance(f, ast.Attribute):
+                try:
+                    recv = strip_sites(fa.term_of(f.value))
+                except AnalysisError:
+                    recv = None
+            out.append(Event(nm, args, kws, node, True, (), c, fi, recv))
         # descend into private helpers
         g = None
         if isinstance(f, ast.Name):
@@ -557,5 +702,75 @@ def call_events(ctx: TermCtx, fi: FuncInfo, pred: Callable[[str], bool], depth: 
                 binding[("param", k.arg)] = strip_sites(fa.term_of(k.value))
         for ev in call_events(ctx, g, pred, depth - 1, _stack + (fi.qual,)):
             must = ev.must and ga.cfg.postdominates(ev.site, ga.cfg.entry)
-            out.append(Event(ev.name, tuple(subst(a, binding) for a in ev.args), tuple((k, subst(v, binding)) for k, v in ev.kwargs), node, must, (g.name,) + ev.via, ev.call, ev.owner))
+            out.append(Event(ev.name, tuple(subst(a, binding) for a in ev.args), tuple((k, subst(v, binding)) for k, v in ev.kwargs), node, must, (g.name,) + ev.via, ev.call, ev.owner, subst(ev.recv, binding) if ev.recv is not None else None, {**binding, **{k: subst(v, binding) for k, v in ev.binding.items()}} if ev.binding else dict(binding)))
     return out
+
+
+def event_before(ctx: TermCtx, fi: FuncInfo, a: Event, b: Event) -> bool:
+    """event a happens on every path that reaches event b (both as seen from fi)."""
+    fa = ctx.analysis(fi)
+    if a.site is not b.site:
+        return a.must and fa.cfg.dominates(a.site, b.site)
+    if a.owner is b.owner and a.via == b.via:
+        ga = ctx.analysis(a.owner)
+        return ga.cfg.has_node(a.call) and ga.cfg.has_node(b.call) and ga.cfg.dominates(ga.cfg.node_of(a.call), ga.cfg.node_of(b.call))
+    return False
+
+
+def event_after(ctx: TermCtx, fi: FuncInfo, b: Event, a: Event) -> bool:
+    """event b happens on every normal path that leaves event a (both as seen from fi)."""
+    fa = ctx.analysis(fi)
+    if a.site is not b.site:
+        return b.must and fa.cfg.postdominates(b.site, a.site)
+    if a.owner is b.owner and a.via == b.via:
+        ga = ctx.analysis(a.owner)
+        return ga.cfg.has_node(a.call) and ga.cfg.has_node(b.call) and ga.cfg.postdominates(ga.cfg.node_of(b.call), ga.cfg.node_of(a.call))
+    return False
+
+
+def tuple_component(t, i: int, n: Optional[int] = None):
+    """i-th component of a term that is a tuple on every alternative (`return a, b` on several paths, or one
+    return of locals that are themselves alternatives); None if some alternative is not a tuple (of length n)."""
+    from .terms import phi, unphi_terms
+
+    alts = unphi_terms(t)
+    comps = []
+    for a in alts:
+        if a[0] != "tuple" or (n is not None and len(a[1]) != n) or len(a[1]) <= i:
+            return None
+        comps.append(a[1][i])
+    if not comps:
+        return None
+    return comps[0] if len(set(comps)) == 1 else phi(comps)
+
+
+def site_owner(model: Model, ctx: TermCtx, fi: FuncInfo, callee_name: str):
+    """The function of unit(fi) that contains the call(s) of `callee_name`, with a map from fi's terms for the
+    actual arguments to that function's parameters ({} when it is fi itself).  Extracting the code around a call
+    site into a private helper therefore does not move the obligation out of sight."""
+
+    def nm(c):
+        return c.func.id if isinstance(c.func, ast.Name) else (c.func.attr if isinstance(c.func, ast.Attribute) else None)
+
+    owners = [g for g in unit(model, fi) if any(nm(c) == callee_name for c in calls_in(g))]
+    if not owners:
+        return fi, {}
+    if len(owners) != 1:
+        raise AnalysisError(f"calls of {callee_name} are spread over {[g.name for g in owners]}")
+    g = owners[0]
+    if g is fi:
+        return g, {}
+    sites = [(c_, call, skip) for c_, call, skip in call_sites_of(model, g) if c_ is fi]
+    if len(sites) != 1:
+        raise AnalysisError(f"{g.name} is not called exactly once, directly, from {fi.name}")
+    _c, call, skip = sites[0]
+    fa = ctx.analysis(fi)
+    inv = {}
+    for p_, a in zip(g.pos_params[skip:], call.args):
+        inv[strip_sites(fa.term_of(a))] = ("param", p_)
+    for k in call.keywords:
+        if k.arg:
+            inv[strip_sites(fa.term_of(k.value))] = ("param", k.arg)
+    if skip and fi.pos_params:
+        inv[("param", fi.pos_params[0])] = ("param", g.pos_params[0])
+    return g, inv
